@@ -285,3 +285,15 @@ def list_at(d, k):
 def dict_same_except(d0, d1, key):
     """same entries apart from the one at `key`"""
     return {k: v for k, v in d0.items() if k != key} == {k: v for k, v in d1.items() if k != key}
+
+
+def defined(name, f, *args):
+    """a named boolean definition: f(*args).  A lemma may declare `name` opaque, in which case the
+    logical counterpart is an uninterpreted predicate of the arguments (the lemma then holds for every
+    interpretation, in particular for f)"""
+    return f(*args)
+
+
+def unknown_bool(tag):
+    """an unknown boolean (one per call): a contract that does not say when something happens"""
+    raise NotImplementedError('unknown_bool has no native value')
